@@ -6,7 +6,9 @@
    I3 load_all_ignores_unparsable_recovery_file: the loading phase (newDecoder + LoadFileData + LoadParityData)
       returns the same outcome on a file system with one extra such file at a path of the recovery-file
       pattern as without it (the PAR2 analogue of Par1Volumes.p1_load_ignores_unparsable_volume).
-      load_all_ignores_unparsable_recovery_file_gen: the same with the premise on the LISTING itself. *)
+      load_all_ignores_unparsable_recovery_file_gen: the same with the premise on the LISTING itself.
+   I4 load_all_frame: the loading phase depends on the file system only through the index file, the protected files,
+      the listing of the recovery-file pattern (files of the index file's own directory) and the files listed. *)
 From Coq Require Import Lia Permutation.
 From Gopar Require Import Model.Base Model.GF16 Model.Matrix Model.RS16 Model.CRC Model.GoPath Model.FS Model.Par2
      Proofs.GoPathFacts Proofs.Par2Facts Proofs.Par2Create Proofs.Par2Layout Proofs.Par2Verify Proofs.Par2Clean
@@ -84,7 +86,8 @@ Qed.
 (* what FindWithPrefixAndSuffix(<base>., <ext>) returns on a fault-free state: the keys of the pattern, sorted *)
 Definition rec_pattern (ix p : list N) : bool :=
   Nat.leb (length (strip_ext ix ++ [DOT]) + length (ext ix)) (length p)
-  && starts_with p (strip_ext ix ++ [DOT]) && ends_with p (ext ix).
+  && starts_with p (strip_ext ix ++ [DOT]) && ends_with p (ext ix)
+  && no_slash (skipn (length (strip_ext ix ++ [DOT])) p).
 Definition rec_listing (ix : list N) (fs : list (list N * bytes)) : list (list N) :=
   sort_paths (filter (rec_pattern ix) (map fst fs)).
 
@@ -421,6 +424,61 @@ Section Par2Ignore.
     destruct (load_all md5 ix (io_init fs' [])) as [o st1']. cbn [fst] in E. subst o.
     exists ds, st1'. repeat split; reflexivity.
   Qed.
+
+  (** * I4. the loading phase sees the file system only through the index file, the protected files, the listing of
+      the recovery-file pattern, and the files listed: two fault-free file systems that agree on these load alike *)
+  Theorem load_all_frame ix fs fs' :
+    read_res fs' ix = read_res fs ix ->
+    (forall d st1, new_decoder md5 ix (io_init fs []) = (Ok d, st1) ->
+       forall info, In info (d_rec d) ->
+         read_res fs' (file_path ix (di_name info)) = read_res fs (file_path ix (di_name info))) ->
+    rec_listing ix fs' = rec_listing ix fs ->
+    (forall p, In p (rec_listing ix fs) -> read_res fs' p = read_res fs p) ->
+    fst (load_all md5 ix (io_init fs' [])) = fst (load_all md5 ix (io_init fs [])).
+  Proof.
+    intros Hix Hprot HL Hlisted.
+    unfold load_all.
+    destruct (negb (str_eqb (ext ix) EXT_PAR2)); [reflexivity|].
+    pose proof (new_decoder_fst_same ix (io_init fs []) (io_init fs' []) eq_refl eq_refl Hix) as ND.
+    pose proof (new_decoder_pres md5 ix (io_init fs [])) as P1.
+    pose proof (new_decoder_pres md5 ix (io_init fs' [])) as P1'.
+    destruct (new_decoder md5 ix (io_init fs [])) as [[d|e|x] s1] eqn:E1;
+      destruct (new_decoder md5 ix (io_init fs' [])) as [[d'|e'|x'] s1'];
+      cbn [fst snd] in ND, P1, P1' |- *; try discriminate ND; try (injection ND as ->; reflexivity).
+    injection ND as ->.
+    destruct P1 as (Pf1 & Ps1 & _). destruct P1' as (Pf1' & Ps1' & _).
+    cbn [io_init io_fs io_sched] in Pf1, Ps1, Pf1', Ps1'.
+    pose proof (Hprot d s1 eq_refl) as Hp.
+    destruct (new_decoder_ok md5 _ _ _ _ E1) as [Hdix _].
+    destruct (win_new (Z.of_N (d_slice d))) as [w|e|x]; [|reflexivity|reflexivity].
+    cbv zeta.
+    match goal with |- context [load_files md5 d w ?t ?todo ?f0 s1] =>
+      pose proof (load_files_fst_same d w t todo f0 s1 s1' Ps1 Ps1') as LF;
+      pose proof (load_files_pres md5 d w t todo f0 s1) as P2;
+      pose proof (load_files_pres md5 d w t todo f0 s1') as P2';
+      destruct (load_files md5 d w t todo f0 s1) as [[fis|e|x] s2];
+      destruct (load_files md5 d w t todo f0 s1') as [[fis'|e'|x'] s2']
+    end;
+      cbn [fst snd] in LF, P2, P2' |- *;
+      (assert (LF' : _) by (apply LF; intros i info Hin; apply in_combine_r in Hin;
+                            rewrite Pf1, Pf1', Hdix; exact (Hp info Hin)));
+      try discriminate LF'; try (injection LF' as ->; reflexivity).
+    injection LF' as ->. clear LF.
+    destruct P2 as (Pf2 & Ps2 & _). destruct P2' as (Pf2' & Ps2' & _).
+    assert (Hs2 : io_sched s2 = []) by congruence.
+    assert (Hs2' : io_sched s2' = []) by congruence.
+    assert (Hf2 : io_fs s2 = fs) by congruence.
+    assert (Hf2' : io_fs s2' = fs') by congruence.
+    destruct (io_list_nosched ix s2 Hs2) as (s3 & IL & Hs3 & Hf3).
+    destruct (io_list_nosched ix s2' Hs2') as (s3' & IL' & Hs3' & Hf3').
+    rewrite IL, IL', Hf2, Hf2', HL.
+    assert (LP : fst (load_parity md5 d (rec_listing ix fs) [] s3') = fst (load_parity md5 d (rec_listing ix fs) [] s3)).
+    { apply load_parity_fst_same; [exact Hs3|exact Hs3'|].
+      intros p Hin. rewrite Hf3, Hf3', Hf2, Hf2'. apply Hlisted. exact Hin. }
+    destruct (load_parity md5 d (rec_listing ix fs) [] s3) as [[acc|e|x] s4];
+      destruct (load_parity md5 d (rec_listing ix fs) [] s3') as [[acc'|e'|x'] s4'];
+      cbn [fst] in LP |- *; try discriminate LP; injection LP as ->; reflexivity.
+  Qed.
 End Par2Ignore.
 
 (** * examples with the toy hash *)
@@ -464,6 +522,7 @@ Print Assumptions load_parity_skips_unparsable.
 Print Assumptions load_all_ignores_unparsable_recovery_file_gen.
 Print Assumptions load_all_ignores_unparsable_recovery_file.
 Print Assumptions load_all_ignores_unparsable_recovery_file_state.
+Print Assumptions load_all_frame.
 Print Assumptions magic_then_garbage_short.
 Print Assumptions magic_then_garbage_long.
 Print Assumptions other_set_packet_skipped.
